@@ -24,6 +24,8 @@ type c11Case struct {
 	Cfg    cfggen.Config `json:"cfg"`
 	Format string        `json:"format"`
 	Reqs   []c11Req      `json:"reqs"`
+	// Scope the connection comes from (empty = sA, for cases saved before there were two scopes)
+	Scope string `json:"scope,omitempty"`
 }
 
 var (
@@ -187,11 +189,18 @@ func genC11Request(t *rapid.T, users []string) c11Req {
 
 func genC11(t *rapid.T) c11Case {
 	c := c11Case{Format: rapid.SampledFrom([]string{"yaml", "yaml", "json"}).Draw(t, "format")}
-	c.Cfg.Secrets = []cfggen.Secret{cfggen.NewSecret(cfggen.ScopeA, cfggen.KeyA, cfggen.PrefixA)}
+	c.Cfg.Secrets = []cfggen.Secret{cfggen.NewSecret(cfggen.ScopeA, cfggen.KeyA, cfggen.PrefixA), cfggen.NewSecret(cfggen.ScopeB, cfggen.KeyB, cfggen.PrefixB)}
+	c.Scope = rapid.SampledFrom([]string{cfggen.ScopeA, cfggen.ScopeA, cfggen.ScopeB}).Draw(t, "conn_scope")
 	nu := rapid.IntRange(1, 2).Draw(t, "nusers")
 	names := []string{"alice", "bob"}
 	for i := 0; i < nu; i++ {
-		u := cfggen.User{Name: names[i], Scopes: []string{cfggen.ScopeA}}
+		// users may live in both scopes, listed in either order; the scope the connection comes from
+		// always has alice
+		scopes := rapid.SampledFrom([][]string{{cfggen.ScopeA, cfggen.ScopeB}, {cfggen.ScopeB, cfggen.ScopeA}, {c.Scope}, {c.Scope}}).Draw(t, "user_scopes")
+		if i > 0 && rapid.IntRange(0, 3).Draw(t, "other_scope_only") == 0 {
+			scopes = []string{map[string]string{cfggen.ScopeA: cfggen.ScopeB, cfggen.ScopeB: cfggen.ScopeA}[c.Scope]}
+		}
+		u := cfggen.User{Name: names[i], Scopes: append([]string{}, scopes...)}
 		u.Commands = genRules(t, 6)
 		u.Services = genServices(t, 3)
 		ng := rapid.IntRange(0, 2).Draw(t, "ngroups")
@@ -236,17 +245,23 @@ func runC11(t failer, c c11Case) {
 			t.Fatalf("%v", e)
 		}
 	}()
-	d, err := env.dial(cfggen.AddrIn(cfggen.ScopeA, 3).IP(), 999)
+	scope := c.Scope
+	if scope == "" {
+		scope = cfggen.ScopeA
+	}
+	key := scopeKey(scope)
+	d, err := env.dial(cfggen.AddrIn(scope, 3).IP(), 999)
 	if err != nil {
 		t.Fatalf("%v", err)
 	}
+	ev.Class("conn-scope:" + scope)
 	for i, r := range c.Reqs {
 		var margs []model.B
 		for _, a := range r.Args {
 			margs = append(margs, model.B(a))
 		}
 		body := model.AuthorRequest{Method: 6, Priv: 1, AType: 1, Service: 1, User: model.B(r.User), Port: b("tty0"), RemAddr: b("192.0.2.9"), Args: margs}.Encode()
-		wire := model.Frame([]byte(cfggen.KeyA), model.Header{Version: 0xc0, Type: model.TypeAuthor, Seq: 1, Session: uint32(0x2000 + i)}, body)
+		wire := model.Frame(key, model.Header{Version: 0xc0, Type: model.TypeAuthor, Seq: 1, Session: uint32(0x2000 + i)}, body)
 		pkts, _, closed, err := d.send(wire)
 		if err != nil {
 			t.Fatalf("%v", err)
@@ -259,7 +274,7 @@ func runC11(t failer, c c11Case) {
 			ev.Class("no-single-reply")
 			continue
 		}
-		rep, ok, _ := model.DecodeAuthorReply(pkts[0].Clear([]byte(cfggen.KeyA)))
+		rep, ok, _ := model.DecodeAuthorReply(pkts[0].Clear(key))
 		if !ok {
 			fail("reply-undecodable", "request %d: reply does not decode as an authorization REPLY", i)
 		}
@@ -274,7 +289,7 @@ func runC11(t failer, c c11Case) {
 			}
 			continue
 		}
-		v := c.Cfg.Authorize(cfggen.ScopeA, cfggen.AuthzRequest{User: r.User, Args: r.Args})
+		v := c.Cfg.Authorize(scope, cfggen.AuthzRequest{User: r.User, Args: r.Args})
 		ev.Class("mode:" + v.Mode)
 		switch rep.Status {
 		case cfggen.AuthorPassAdd, cfggen.AuthorPassRepl:
